@@ -169,7 +169,7 @@ def run(chk, replay=None):
     if replay:
         r = json.load(open(replay))["replay"]
         a = r.get("args") or []
-        if a and a[0] == "replay":                       # a corpus request
+        if a and a[0] == "replay" and r.get("stdin"):    # a corpus file (the record carries its requests)
             jobs.append(("replay", a, r.get("stdin")))
         elif a and a[0] == "run" and r.get("scenario") is not None:   # a generated scenario
             jobs.append(("replay", ["run", a[1], str(r["scenario"]), str(r["scenario"] + 1)], None))
